@@ -75,6 +75,12 @@ CHECKS = {
         text="CancelOnShutdownExecutor with a recording tap directly below it, over manual / retry / poll / map / throttle / thread-pool inner stacks: when shutdown() has returned, every future any submit() returned that was not done by then has had cancel() invoked exactly once by the shutting-down thread (never twice), the wrapped executor saw exactly one shutdown() with the same wait argument after the last cancel, and every racing submit() either raised the documented RuntimeError or returned a covered future.",
         design_ref="DESIGN.md section 4 (C10)", note=ENGINE_NOTE + " cancel() calls are observed by wrapping Future.cancel/_Future.cancel from the harness."),
 
+    "C11": dict(
+        category="exploration",
+        technique="history-invariant property testing: exhaustive single-pre-emption sweeps of shutdown-vs-submit/worker-loop programs per layer type + Hypothesis-drawn stacks, workloads, shutdown arguments and racing submitters with tapes and both clock modes; oracle = predicates over recorded submit results, delegate shutdown calls (taps) and thread exit bits",
+        text="Stacks of up to 4 layers of every executor type (with_asyncio outermost included) over a manual or thread-pool base, with a recording tap below every layer, are shut down while idle, queued, between retries, polling or running, with 0-2 submitters racing: shutdown() must return; later submits raise exactly the documented RuntimeError; a second shutdown returns; every level down the chain saw exactly one shutdown with the same wait/cancel_futures arguments, inside the first shutdown call; with wait=True every thread the stack created has exited by the time shutdown() returns (the scheduler knows thread exit exactly); racing submits raise that error or return a future.",
+        design_ref="DESIGN.md section 4 (C11)", note=ENGINE_NOTE),
+
     "C14": dict(
         category="exploration",
         technique="model-based property testing: and/or fold over admissible linearisations of the completion events; exhaustive outcome x completion-order enumeration + Hypothesis-drawn concurrent completions under the deterministic scheduler",
